@@ -170,6 +170,18 @@ def run(ctx):
         rows.append(o)
     ck.expect(not bad and len(leaves) >= 3, 'C13-D2', pp.qual, 'producer loop table (%d rows): item -> next; no item & 0 unfinished -> stop; else wait for a worker' % len(leaves),
               'producer exit/wait decision differs from the reference: %s' % '; '.join(bad[:3]), pp.loc(lps[0]))
+    # the count compared with 0 is read after the poll of the source returned: a value read before that suspension is stale
+    poll = [st for st in lps[0].body if any(U.attr_name(c) == 'process_one' for c in U.calls(st))]
+    fresh = bool(poll)
+    pdefs_ = U.local_defs(pp.node)
+    for t in [n for n in walk_no_nested(lps[0]) if isinstance(n, (ast.If, ast.While)) and n is not lps[0]]:
+        for nm in [x for x in ast.walk(t.test) if isinstance(x, ast.Name) and x.id in pdefs_ and x.id not in pp.params]:
+            for v, k, st in pdefs_[nm.id]:
+                if v is not None and 'unfinished' in norm_text(v) and poll and st.lineno < poll[0].lineno:
+                    fresh = False
+    ck.expect(fresh, 'C13-D2', pp.qual, 'the unfinished count is read after the source was polled',
+              'the number of unfinished items is read before `yield from self.process_one()` suspends: if the last item in flight '
+              'finishes during the poll the producer waits for a worker that will never report, and process() hangs', pp.loc(lps[0]))
     ck.expect(norm_text(lps[0].test) == 'self._running', 'C13-D2', pp.qual, 'loop while self._running', 'producer loop condition changed', pp.loc(lps[0]))
     p1 = repo.func(PIPE + ':Producer.process_one')
     okr = any(isinstance(i, ast.If) and isinstance(i.test, ast.Name) and not i.orelse and any(isinstance(b, ast.Return) and norm_text(b.value) == i.test.id for b in i.body)
